@@ -467,24 +467,6 @@ def rule_column7(P) -> RuleResult:
 def rule_modconst(P) -> RuleResult:
     res = RuleResult('R-MODCONST')
     m = P.module('beanquery')
-    # every execute() on the connection hands out a cursor of its own
-    conn0 = m.classes.get('Connection')
-    if conn0 is not None and 'cursor' in conn0.methods and 'execute' in conn0.methods:
-        cur_m, ex_m = conn0.methods['cursor'], conn0.methods['execute']
-        rets = [n for n in ast.walk(cur_m.node) if isinstance(n, ast.Return)]
-        fresh = len(rets) == 1 and isinstance(rets[0].value, ast.Call) and unparse(rets[0].value.func) == 'Cursor'
-        stores = [unparse(n.targets[0]) for f in (cur_m, ex_m) for n in ast.walk(f.node)
-                  if isinstance(n, ast.Assign) and unparse(n.targets[0]).startswith('self.')]
-        rets2 = [n for n in ast.walk(ex_m.node) if isinstance(n, ast.Return)]
-        via = len(rets2) == 1 and unparse(rets2[0].value).startswith('self.cursor().execute(')
-        if not fresh or stores or not via:
-            res.fail(f'{conn0.fq}.execute', 'modconst:fresh-cursor',
-                     'Connection.execute() / cursor() must hand out a new Cursor each time: a cursor kept on the connection '
-                     f'is re-executed under the hands of the caller that still holds it (stores on the connection: {stores})',
-                     loc(ex_m))
-        else:
-            res.ok({'Connection.execute': 'self.cursor().execute(...)', 'Connection.cursor': 'Cursor(self)'})
-
     def const(name):
         v = m.assigns.get(name)
         try:
